@@ -20,12 +20,10 @@
 mod h2bb;
 
 use std::{
+    collections::BTreeSet,
     io::{Read, Write},
     net::{SocketAddr, TcpListener, TcpStream},
-    sync::{
-        atomic::{AtomicUsize, Ordering},
-        Arc,
-    },
+    sync::{Arc, Mutex},
     time::{Duration, Instant},
 };
 
@@ -84,8 +82,9 @@ fn roundtrip(w: &mut h2bb::WorkerHandle, r: RequestType) -> Option<bool> {
     None
 }
 
-/// counts the requests that reach it; answers 200 "pong" and closes
-fn counting_backend(listener: TcpListener, hits: Arc<AtomicUsize>) {
+/// records which requests reach it (every request carries its number in the path, `/r<n>`, so that a request
+/// arriving late -- its client gave up under load -- is never taken for the next one); answers 200 "pong" and closes
+fn counting_backend(listener: TcpListener, hits: Arc<Mutex<BTreeSet<usize>>>) {
     for st in listener.incoming() {
         let Ok(mut st) = st else { continue };
         let hits = hits.clone();
@@ -99,7 +98,9 @@ fn counting_backend(listener: TcpListener, hits: Arc<AtomicUsize>) {
                     Ok(n) => acc.extend_from_slice(&buf[..n]),
                 }
                 if acc.windows(4).any(|w| w == b"\r\n\r\n") {
-                    hits.fetch_add(1, Ordering::SeqCst);
+                    let line = acc.split(|c| *c == b'\r').next().unwrap_or(&[]);
+                    let n = std::str::from_utf8(line).ok().and_then(|l| l.split(' ').nth(1)).and_then(|p| p.strip_prefix("/r")).and_then(|x| x.parse::<usize>().ok());
+                    hits.lock().unwrap().insert(n.unwrap_or(usize::MAX));
                     let _ = st.write_all(b"HTTP/1.1 200 OK\r\nContent-Length: 4\r\nConnection: close\r\n\r\npong");
                     return;
                 }
@@ -123,9 +124,9 @@ fn tls_connect(addr: SocketAddr, sni: &str, h2: bool) -> Result<h2bb::Tls, Strin
     Ok(rustls::StreamOwned::new(conn, tcp))
 }
 
-fn h1_request(addr: SocketAddr, sni: &str, authority: &str) -> Result<u16, String> {
+fn h1_request(addr: SocketAddr, sni: &str, authority: &str, path: &str) -> Result<u16, String> {
     let mut tls = tls_connect(addr, sni, false)?;
-    let req = format!("GET / HTTP/1.1\r\nHost: {authority}\r\nConnection: close\r\n\r\n");
+    let req = format!("GET {path} HTTP/1.1\r\nHost: {authority}\r\nConnection: close\r\n\r\n");
     tls.write_all(req.as_bytes()).map_err(|e| e.to_string())?;
     let _ = tls.flush();
     let mut acc = vec![];
@@ -143,15 +144,17 @@ fn h1_request(addr: SocketAddr, sni: &str, authority: &str) -> Result<u16, Strin
     text.split_whitespace().nth(1).and_then(|x| x.parse().ok()).ok_or_else(|| format!("no status line ({} bytes)", acc.len()))
 }
 
-fn h2_request(addr: SocketAddr, sni: &str, authority: &str) -> Result<u16, String> {
+fn h2_request(addr: SocketAddr, sni: &str, authority: &str, path: &str) -> Result<u16, String> {
     let tls = tls_connect(addr, sni, true)?;
     tls.sock.set_read_timeout(Some(Duration::from_millis(100))).ok();
     let mut p = h2bb::Peer { tls, acc: vec![], closed: false, early: vec![] };
     if !p.handshake(&[]) {
         return Err("h2 settings exchange failed".into());
     }
-    // GET https / with a literal :authority (name index 1, never indexed)
-    let mut block = vec![0x82, 0x87, 0x84, 0x01, authority.len() as u8];
+    // GET https <path> with literal :path (name index 4) and :authority (name index 1), never indexed
+    let mut block = vec![0x82, 0x87, 0x04, path.len() as u8];
+    block.extend_from_slice(path.as_bytes());
+    block.extend_from_slice(&[0x01, authority.len() as u8]);
     block.extend_from_slice(authority.as_bytes());
     p.send(&h2bb::frame(h2bb::T_HEADERS, 0x5, 1, &block));
     let fr = p.read_until(Duration::from_secs(5), |f| f.iter().any(|x| (x.t == h2bb::T_HEADERS && x.sid == 1) || x.t == h2bb::T_GOAWAY || (x.t == h2bb::T_RST && x.sid == 1)));
@@ -206,7 +209,8 @@ fn run_with(pool: &[(String, String)], case: &Case, out: &mut Out) {
     let fa: SocketAddress = front.into();
     let back_listener = TcpListener::bind("127.0.0.1:0").unwrap();
     let back = back_listener.local_addr().unwrap();
-    let hits = Arc::new(AtomicUsize::new(0));
+    let hits: Arc<Mutex<BTreeSet<usize>>> = Arc::new(Mutex::new(BTreeSet::new()));
+    let mut reqno = 0usize;
     {
         let hits = hits.clone();
         std::thread::spawn(move || counting_backend(back_listener, hits));
@@ -251,13 +255,14 @@ fn run_with(pool: &[(String, String)], case: &Case, out: &mut Out) {
             }
             "req" => {
                 let (sni, h2, authority) = (s(a[0].b()), a[1].n() == 2, s(a[2].b()));
-                let before = hits.load(Ordering::SeqCst);
-                let r = if h2 { h2_request(front, &sni, &authority) } else { h1_request(front, &sni, &authority) };
+                reqno += 1;
+                let path = format!("/r{reqno}");
+                let r = if h2 { h2_request(front, &sni, &authority, &path) } else { h1_request(front, &sni, &authority, &path) };
                 // the backend thread counts before it answers; give a straggler a moment only when nothing answered
                 if r.is_err() {
                     std::thread::sleep(Duration::from_millis(50));
                 }
-                let reached = hits.load(Ordering::SeqCst) > before;
+                let reached = hits.lock().unwrap().contains(&reqno);
                 // the SAN snapshot the session keeps (https.rs upgrade_handshake): lower-cased, trailing dot stripped
                 let snapshot: Option<Vec<String>> = shadow.names_for_sni(sni.as_bytes()).and_then(|ns| {
                     let mut v: Vec<String> = ns.into_iter().map(|mut n| { n.make_ascii_lowercase(); if n.ends_with('.') { n.pop(); } n }).collect();
